@@ -223,7 +223,29 @@ fn gen_len(rng: &mut Rng, giant_ok: bool) -> usize {
     .min(32767)
 }
 
+/// a table of 13..80 strings nearly all of which are empty (cch = 0: 3 bytes, or 5 / 7 / 9 with the rich / ext
+/// flags carrying zero counts), a few short non-empty ones mostly at the end: more strings than a quarter of the
+/// payload bytes, what a writer that does not de-duplicate produces
+fn gen_empty_table(rng: &mut Rng) -> Vec<Entry> {
+    let n = rng.range(13, 80) as usize;
+    let tail = rng.below(4) as usize;
+    (0..n)
+        .map(|i| {
+            let nonempty = i + tail >= n || rng.chance(1, 25);
+            let k = if nonempty { rng.range(1, 4) as usize } else { 0 };
+            Entry {
+                units: gen_units(rng, k),
+                runs: if rng.chance(1, 5) { Some(vec![]) } else { None },
+                ext: if rng.chance(1, 7) { Some(vec![]) } else { None },
+            }
+        })
+        .collect()
+}
+
 fn gen_table(rng: &mut Rng) -> Vec<Entry> {
+    if rng.chance(1, 12) {
+        return gen_empty_table(rng);
+    }
     let n = match rng.below(10) {
         0 => 0,
         1..=4 => rng.range(1, 4),
@@ -648,6 +670,8 @@ fn run_raw(line: &str, drv: &mut Driver, expect: Option<&str>) -> Outcome {
         if imp != e {
             let sig = if imp.starts_with("err:Len:") && e == "ok -" {
                 format!("empty_{kind}_rejected_biff{}", if w[1] == "1" { 8 } else { 5 })
+            } else if kind == "dec" {
+                "sst_strings_differ_from_stored".to_string()
             } else if imp.starts_with("ok") && model == e {
                 format!("{kind}_bom_units_misdecoded")
             } else {
@@ -1070,6 +1094,52 @@ fn wb_corpus() -> Vec<String> {
     v.drain(..).map(|b| format!("wb {}", hexs(&b))).collect()
 }
 
+// ---------------------------------------------------------------- stage H: more than 65 536 shared strings
+
+/// `big <k> <seed>`: a workbook whose SST holds 65 536 + k distinct short strings (xlsw writer, random legal
+/// CONTINUE cuts and packings) and LABELSST cells naming the entries around 2^16 and the last one
+fn run_big(k: usize, seed: u64) -> Outcome {
+    let mut o = Outcome { input: format!("big {k} {seed}"), ..Default::default() };
+    let mut rng = Rng::new(seed);
+    let n = 65536 + k;
+    let mut book = XlsBook::new();
+    book.sst = verif_harness::xlsw::big_sst_strings(n);
+    let mut idx: Vec<usize> = vec![0, 1, 255, 256, 65535, 65536, 65537.min(n - 1), n - 1];
+    for _ in 0..8 {
+        idx.push(rng.below(n as u64) as usize);
+        idx.push(65536 + rng.below(k as u64) as usize);
+    }
+    let mut sh = XlsSheet::new("Big");
+    for (r, i) in idx.iter().enumerate() {
+        sh.cells.push(XlsCell::new(r as u16, 0, CellV::LabelSst(*i as u32)));
+    }
+    book.sheets.push(sh);
+    let bytes = book.to_bytes(&mut rng);
+    o.count("big.cases");
+    o.add("big.bytes", bytes.len() as u64);
+    o.add("big.strings", n as u64);
+    o.nontrivial = true;
+    let want: Vec<String> = idx.iter().map(|i| book.sst[*i].clone()).collect();
+    let res = guarded(|| -> Result<Vec<String>, String> {
+        let mut wb: Xls<_> = Xls::new(std::io::Cursor::new(bytes)).map_err(|e| format!("{e:?}"))?;
+        let range = wb.worksheet_range("Big").map_err(|e| format!("{e:?}"))?;
+        Ok((0..idx.len()).map(|r| format!("{:?}", range.get_value((r as u32, 0)))).collect())
+    });
+    let want_dbg: Vec<String> = want.iter().map(|s| format!("{:?}", Some(Data::String(s.clone())))).collect();
+    match res {
+        Ok(Ok(got)) => {
+            if got != want_dbg {
+                let r = (0..idx.len()).find(|r| got[*r] != want_dbg[*r]).unwrap_or(0);
+                let sig = if idx[r] >= 65536 { "labelsst_index_ge_65536_wrong_text" } else { "big_sst_cell_text_differs" };
+                o.fail("impl_vs_spec", sig, &format!("cell {r} (isst {}) = {}", idx[r], got[r]), "(no file-level model)", &want_dbg[r]);
+            }
+        }
+        Ok(Err(e)) => o.fail("impl_vs_spec", "big_sst_workbook_rejected", &canon_err(&e), "(no file-level model)", "Ok"),
+        Err(m) => o.fail("impl_vs_spec", "big_sst_workbook_panics", &m, "(no file-level model)", "no panic"),
+    }
+    o
+}
+
 // ---------------------------------------------------------------- stage G: defined names, BIFF8 and BIFF5
 
 /// `names <biff8 0|1> <name utf8 hex>,<rgce hex>;…` → a workbook stream with one Lbl per name
@@ -1438,6 +1508,9 @@ fn corpus() -> Vec<(String, Option<String>)> {
     v.push((format!("names 0 {},1e0100", hexs(b"Assumptions_Table_Q1")), None));
     v.push((format!("names 0 {},1e0100;{},3a000001000200", hexs(b"B"), hexs("Caf\u{e9}".as_bytes())), None));
     v.push((format!("names 1 {},1e0100", hexs("A\u{416}\u{1F600}".as_bytes())), None));
+    // 19 empty strings then "last": more strings than payload bytes / 4 (seeded change C12-m5: an entry estimate used as a bound)
+    v.push((format!("case 20 {};6c00610073007400,~,~,0,1,-,-,-", vec!["-,~,~,0,0,-,-,-"; 19].join(";")), None));
+    v.push((format!("file 3 case 20 {};6c00610073007400,~,~,0,1,-,-,-", vec!["-,~,~,0,1,-,-,-"; 19].join(";")), None));
     // whole file: BOM-like units at segment starts in SST, LABEL and a sheet name
     v.push(("file 1 case 1 6100fffe6200,~,~,0,1,1:1,-,-;fffe6100,~,~,0,1,-,-,-;-,~,~,0,1,-,-,-".into(), None));
     // fixed 9c57a3b (C06 overlap): header fields cut by a record end, negative cstUnique, cstUnique = 2^31-1 (reservation)
@@ -1509,6 +1582,8 @@ enum Job {
     Str(u64),
     Wb(u64),
     Names(u64),
+    Counts(u64),
+    Big(usize, u64),
     Line(String, Option<String>),
 }
 
@@ -1534,6 +1609,9 @@ fn run_job_inner(job: &Job, drv: &mut Driver) -> Vec<Outcome> {
                 let reply = drv.ask(case_line);
                 let stream = unhex(field(&reply, "bytes", "legal").unwrap_or("-"));
                 vec![run_file(seed.parse().unwrap_or(0), case_line, &stream)]
+            } else if l.starts_with("big ") {
+                let w: Vec<&str> = l.split_whitespace().collect();
+                vec![run_big(w.get(1).and_then(|x| x.parse().ok()).unwrap_or(1), w.get(2).and_then(|x| x.parse().ok()).unwrap_or(1))]
             } else if l.starts_with("names ") {
                 vec![run_names(l)]
             } else if l.starts_with("wb ") {
@@ -1635,6 +1713,41 @@ fn run_job_inner(job: &Job, drv: &mut Driver) -> Vec<Outcome> {
             let mut rng = Rng::new(*seed);
             vec![run_names(&gen_names(&mut rng))]
         }
+        Job::Counts(seed) => {
+            // cstUnique smaller than / equal to / larger than the number of strings present
+            let mut rng = Rng::new(*seed);
+            let t = if rng.chance(2, 3) { gen_empty_table(&mut rng) } else { gen_small_table(&mut rng) };
+            let k = rng.below(3);
+            let st = style(&mut rng, k as usize);
+            let ls = make_layout(&t, &mut rng, &st);
+            let reply = drv.ask(&wire_table(1, &t, &ls));
+            let mut bytes = unhex(field(&reply, "bytes", "legal").unwrap_or("-"));
+            let n = t.len();
+            let c = match rng.below(4) {
+                0 => n,
+                1 => rng.below(n as u64 + 1) as usize,
+                2 => n.saturating_sub(1),
+                _ => n + 1 + rng.below(3) as usize,
+            };
+            if bytes.len() >= 12 {
+                bytes[8..12].copy_from_slice(&(c as u32).to_le_bytes());
+            }
+            // the declared count rules: the first c strings, whatever follows them in the record
+            let expect = if c <= n && t.iter().all(|e| String::from_utf16(&e.units).is_ok()) {
+                let texts: Vec<String> = t[..c].iter().map(|e| String::from_utf16_lossy(&e.units)).collect();
+                Some(canon_strings(&texts))
+            } else {
+                None
+            };
+            let mut o = run_raw(&format!("dec {}", hexs(&bytes)), drv, expect.as_deref());
+            o.count(match c.cmp(&n) {
+                std::cmp::Ordering::Less => "counts.cst_unique_smaller",
+                std::cmp::Ordering::Equal => "counts.cst_unique_exact",
+                std::cmp::Ordering::Greater => "counts.cst_unique_larger",
+            });
+            vec![o]
+        }
+        Job::Big(k, seed) => vec![run_big(*k, *seed)],
         Job::Wb(seed) => {
             let mut rng = Rng::new(*seed);
             let s = gen_wb(&mut rng);
@@ -1664,6 +1777,11 @@ fn main() {
          stage D: one layout of each table inside a complete .xls (xlsw writer, random compound-file layout): LABELSST cell per \
          string, inline LABEL cells and FORMULA+STRING results for strings <= 2000 units, sheet names = first <= 30 units of a \
          table string (NUL excluded), read through Xls::new / sheet_names / worksheet_range against the stored text. \
+         one table in 12 is made of 13..80 strings nearly all empty (cch = 0, 8- or 16-bit flag, with or without the rich / ext \
+         flags carrying zero counts) with a few short ones at the end; `counts`: such tables (and small ones) with cstUnique set \
+         below / at / above the number of strings present (the first cstUnique strings are expected, the rest of the record is ignored). \
+         stage H: workbooks whose SST holds 65536+k distinct short strings (k = 1, 100, random; xlsw writer, ~60 CONTINUE records) \
+         with LABELSST cells naming entries 0, 1, 255, 256, 65535, 65536, 65537, the last and random ones >= 65536. \
          stage G: 1-3 defined names (1..255 units; BIFF8: any characters, random 8/16-bit packing; BIFF5: Latin-1 letters as plain \
          code-page-1252 bytes, no flag byte) in a BIFF8 / BIFF5 workbook, read through Xls::new / defined_names against the stored names. \
          stage F: a small workbook stream (BOF, CODEPAGE, DATEMODE, FORMAT, XF, BOUNDSHEET, SUPBOOK, EXTERNSHEET, LBL, SST, EOF + a \
@@ -1706,6 +1824,17 @@ fn main() {
             if i % 2 == 0 {
                 jobs.push(Job::Names(rng.next()));
             }
+            jobs.push(Job::Counts(rng.next()));
+        }
+        // shared-string tables of more than 65 536 entries (about 0.6 MB each)
+        let bigs = if args.thorough() { 40 } else { 3 };
+        for j in 0..bigs {
+            let k = match j {
+                0 => 1,
+                1 => 100,
+                _ => rng.range(1, 100) as usize,
+            };
+            jobs.push(Job::Big(k, rng.next()));
         }
     }
     let threads = if args.replay.is_some() {
